@@ -145,6 +145,36 @@ def concurrent_sessions(rec, rounds, nthreads=4):
     return a, rec.n
 
 
+class _NullRec:
+    n = 0
+
+    def emit(self, e):
+        pass
+
+
+def run_sendfail(rec, pair, k):
+    """Session A's peer has gone away: its first send leaves, the ICMP port-unreachable comes back, its next send() fails AFTER the
+    message was built (ECONNREFUSED).  A is environment only (not recorded); what is judged is what session B - same thread, any
+    version - puts on the wire right afterwards, and A2 (a live session of A's kind) after that."""
+    import time as _t
+    std = scripts.all_cfgs()
+    a0 = rec.n
+    dead = rawdrv.RawSession(_NullRec(), std[pair[0]], sid=3)
+    dead.kill_agent()
+    live = rawdrv.RawSession(rec, std[pair[1]], sid=1)
+    other = rawdrv.RawSession(rec, std[pair[0]], sid=2)
+    for j in range(3):
+        dead.send(["get", "get_many", "getbulk"][(j + k) % 3] if std[pair[0]].ver != "v1" else "get",
+                  ["1.3.6.1.4.1.5555.%d.%d" % (k, j)] + (["1.3.6.1.4.1.5555.9.%d" % j] if (j + k) % 3 == 1 else []), maxrep=5)
+        _t.sleep(0.002)                                     # let the ICMP error reach the socket
+        op = ["get", "get_many", "getnext"][(j + k) % 3]
+        live.send(op, ["1.3.6.1.2.1.1.%d.0" % (j + 1)] + (["1.3.6.1.2.1.1.%d.1" % (j + 1)] if op == "get_many" else []))
+        other.send("get", ["1.3.6.1.2.1.2.%d.0" % (j + 1)])
+    live.close()
+    other.close()
+    return a0, rec.n
+
+
 async def fetch_policy(rec):
     """fetch() through the real SnmpSession: GetBulk on v2c/v3 with bulk allowed, GetNext otherwise"""
     std = scripts.std_cfgs()
@@ -205,6 +235,11 @@ def run(tier):
         a, b = run_history(rec, pair, h, i)
         runs.append((a, b, dict(kind="history", pair=pair, history=h)))
         chk.case((pair, json.dumps(h, sort_keys=True)))
+    # a failed send() (peer gone) of one session, then requests of other sessions on the same thread
+    for k, pair in enumerate(PAIRS[:6] if not thorough else PAIRS * 3):
+        a, b = run_sendfail(rec, pair, k)
+        runs.append((a, b, dict(kind="sendfail", pair=pair, k=k)))
+        chk.case(("sendfail", pair, k))
     # random calls
     std = scripts.std_cfgs()
     names = list(std)
@@ -285,6 +320,8 @@ def replay(path):
         run_history(rec, tuple(info["pair"]), info["history"], 0)
     elif info["kind"] == "fetch":
         asyncio.run(fetch_policy(rec))
+    elif info["kind"] == "sendfail":
+        run_sendfail(rec, tuple(info["pair"]), info["k"])
     else:
         print("random run: re-run the check with VERIF_SEED=%s" % info.get("seed"))
         return 1
